@@ -52,6 +52,17 @@ Theorem C20_sparse_from_parts : forall d,
   option_map to_dense (from_parts (N.of_nat (length d)) (N_seq_from 0 (length d)) d) = Some (map norm_zero d).
 Proof. exact (fun d => conj (from_parts_dense d) (from_parts_roundtrip d)). Qed.
 
+(* SparseVector::set: a vector built by from_dense is well formed (positions strictly increasing), set keeps it
+   well formed, refuses exactly the indices outside the dimension, and afterwards every coordinate reads back
+   (get = binary search over the positions) as before except the one that was set *)
+Theorem C20_sparse_set : forall d,
+  sv_wf (from_dense d) /\
+  forall s i v, sv_wf s ->
+  (fst s <= i -> sv_set s i v = None) /\
+  (i < fst s -> exists s', sv_set s i v = Some s' /\ fst s' = fst s /\ sv_wf s' /\
+                forall j, sv_get s' j = if N.eqb j i then norm_zero v else sv_get s j).
+Proof. exact (fun d => conj (from_dense_wf d) sv_set_spec). Qed.
+
 (* tensor_compress::format's sparse decoder on arbitrary (forged, unsorted, out-of-range) positions never
    writes outside the vector -- the result always has `dimension` entries -- and on well-formed input it is
    the lossless read-back *)
@@ -169,3 +180,4 @@ Print Assumptions C20_split_frame_bounded.
 Print Assumptions C20_sparse_from_parts.
 Print Assumptions C20_format_sparse_decoder_total.
 Print Assumptions C20_format_sparse_decoder_wellformed.
+Print Assumptions C20_sparse_set.
